@@ -9,7 +9,8 @@
    - whole BQM files (versions 1.0 and 2.0), whole QM files, whole expression members: decode (encode f) = f. *)
 From Coq Require Import List NArith ZArith Arith Bool.
 From Dimod Require Import Gen.Gen_Codec Model.Codec Model.ChkC09 Proofs.CodecBase Proofs.CodecFrame Proofs.CodecBqm Proofs.CodecBqmTop
-  Proofs.CodecLabel Proofs.CodecJson Proofs.CodecBqmFull Proofs.CodecQm Proofs.CodecExpr.
+  Proofs.CodecLabel Proofs.CodecJson Proofs.CodecBqmFull Proofs.CodecQm Proofs.CodecExpr
+  Model.Rebuild Proofs.RebuildFacts Proofs.CodecAdj.
 Import ListNotations.
 
 Theorem le_decode_encode : forall n x, (x < 256 ^ N.of_nat n)%N -> le_dec (le_enc n x) = x.
@@ -96,6 +97,34 @@ Print Assumptions qm_decode_encode.
 Theorem expr_decode_encode : forall f, ExprWF f -> run expr_decode (expr_encode f) = Ok f.
 Proof. exact CodecExpr.expr_decode_encode. Qed.
 Print Assumptions expr_decode_encode.
+
+(* ---- the loaded MODEL, not only the file record: replaying the loader's add_quadratic_back calls on the stored
+   lower triangles restores the whole adjacency - both directions of every interaction, self loops once, every
+   neighbourhood in index order - for any symmetric, index-sorted adjacency of any size *)
+Theorem rebuild_lowers : forall (B : Type) (a : list (list (nat * B))), AdjWF a -> rebuild (lowers a) = a.
+Proof. intros B a. exact (RebuildFacts.rebuild_lowers a). Qed.
+Print Assumptions rebuild_lowers.
+
+Theorem qm_load_restores_adjacency : forall f (a : list (list (nat * bytes))),
+  QmWF f -> AdjWF a -> qf_neig f = map nb_N (lowers a) ->
+  exists g, run qm_decode (qm_encode f) = Ok g /\ rebuild (map nb_nat (qf_neig g)) = a.
+Proof. exact CodecAdj.qm_load_restores_adjacency. Qed.
+Print Assumptions qm_load_restores_adjacency.
+
+(* BQM: stated for the add_quadratic_back replay; the loader calls add_quadratic (lower_bound + insert + `+=`), which
+   appends when all existing keys are smaller (upsert_at_end) - the induction showing that this precondition holds at
+   every call of a load is NOT done (PARTIAL); the executable upsert replay is compared with the observed adjacency
+   in the correspondence check instead *)
+Theorem bqm_load_restores_adjacency_partial : forall f (a : list (list (nat * bytes))),
+  BqmWFL f -> AdjWF a -> bf_adj f = map nb_N a ->
+  exists g, run bqm_decode (bqm_encode f) = Ok g /\ rebuild (lowers (map nb_nat (bf_adj g))) = a.
+Proof. exact CodecAdj.bqm_load_restores_adjacency. Qed.
+Print Assumptions bqm_load_restores_adjacency_partial.
+
+Theorem upsert_at_end : forall (B : Type) (add : B -> B -> B) (add0 : B -> B) k b (l : list (nat * B)),
+  Forall (fun e => fst e < k) l -> upsert add add0 k b l = l ++ [(k, add0 b)].
+Proof. intros B. exact (@CodecAdj.upsert_at_end B). Qed.
+Print Assumptions upsert_at_end.
 
 (* hypotheses are satisfiable on non-trivial data: the implementation's own bytes of
    BQM({'a':1.5,'b':-2,('t',1):.25},{('a','b'):3},.5,'SPIN') *)
